@@ -23,6 +23,7 @@ import (
 const (
 	c04IncName  = "c04_included.liquid"
 	c04FailName = "c04_failing.liquid"
+	c04SelfName = "c04_self.liquid"
 	c04AltPath  = "c04_other_page.liquid"
 )
 
@@ -47,6 +48,11 @@ func c04Engine() *liquid.Engine {
 		return s, err
 	})
 	if _, err := e.ParseTemplateAndCache([]byte("inc[{% y %}{% assign x = 'i' %}{{ x | y }}{% for i in l %}{% cycle '1', '2' %}{% y %}{% endfor %}]"), c04IncName, 1); err != nil {
+		panic("harness: " + err.Error())
+	}
+	// a partial that includes itself until depth 60 (one scheduling point per level): two or three such renders
+	// in flight together hold 120-180 nested includes, each of them far below any per-render nesting limit
+	if _, err := e.ParseTemplateAndCache([]byte(`{% assign n = n | plus: 1 %}{% y %}{% if n < 60 %}{% include "`+c04SelfName+`" %}{% else %}bottom{{ n }}{% endif %}`), c04SelfName, 1); err != nil {
 		panic("harness: " + err.Error())
 	}
 	if _, err := e.ParseTemplateAndCache([]byte("F[{% y %}{{ l | first | divided_by: 0 }}]"), c04FailName, 1); err != nil {
@@ -118,6 +124,7 @@ var c04Base = []string{
 	"{% for kv in m %}{{ kv[0] }}={{ kv[1] }};{% endfor %}{{ m.size }}{{ dl | join }}{{ dl[0] }}{% if dl[1] == 's' %}S{% endif %}",
 	"{% yb %}in{{ x }}{% endyb %}{% for i in l limit: 2 %}{% cycle 'g': '1', '2', '3' %}{% endfor %}",
 	`a{% include "` + c04FailName + `" %}b`, // the error raised inside the included file names the INCLUDING template's path and line
+	`R{% include "` + c04SelfName + `" %}`, // 60 nested includes per render
 	// thorough
 	"{% assign l = l | reverse %}{% for i in l %}{{ i }}{% endfor %}{% assign x = nil %}{{ x }}",
 	"{% for x in l %}{{ x }}{% endfor %}{{ x }}{{ forloop }}",
@@ -131,7 +138,7 @@ func c04Shared() map[string]any {
 	return map[string]any{
 		"x": "X", "l": []any{3, 1, 2, 1}, "lm": []any{map[string]any{"w": 2}, map[string]any{"w": 1}},
 		"m": map[string]any{"a": 1, "b": 2}, "d": pointDrop{map[string]any{"k": 1, "l": []any{2, 1}}},
-		"dl": []any{pointDrop{1}, pointDrop{"s"}},
+		"dl": []any{pointDrop{1}, pointDrop{"s"}}, "n": 0,
 	}
 }
 
@@ -148,7 +155,7 @@ type c04Scenario struct {
 }
 
 func c04Scenarios(tier string) []c04Scenario {
-	nT := 13
+	nT := 14
 	if tier == "thorough" {
 		nT = len(c04Base)
 	}
@@ -158,6 +165,9 @@ func c04Scenarios(tier string) []c04Scenario {
 	p := func(t int) c04Op { return c04Op{"parse", t} }
 	for t := 0; t < nT; t++ {
 		out = append(out, c04Scenario{fmt.Sprintf("same-template-twice:t%d", t), [][]c04Op{{r(t)}, {f(t)}}})
+		if strings.Contains(c04Base[t], c04SelfName) {
+			continue // the 60-deep include is explored in same-template-twice and three-goroutines only (cost)
+		}
 		out = append(out, c04Scenario{fmt.Sprintf("parse-vs-render:t%d", t), [][]c04Op{{p(t), r(t)}, {r(t)}}})
 	}
 	// different templates using the same binding names
@@ -182,13 +192,16 @@ func c04Scenarios(tier string) []c04Scenario {
 	// include the same files, and what an include compiles depends on where it was included from
 	ra := func(t int) c04Op { return c04Op{"render-alt", t} }
 	for t := 0; t < nT; t++ {
+		if strings.Contains(c04Base[t], c04SelfName) {
+			continue
+		}
 		if strings.Contains(c04Base[t], "include") || strings.Contains(c04Base[t], "nosuch") || strings.Contains(c04Base[t], "divided_by: 0") {
 			out = append(out, c04Scenario{fmt.Sprintf("two-locations:t%d", t), [][]c04Op{{r(t)}, {ra(t)}}})
 			out = append(out, c04Scenario{fmt.Sprintf("two-locations-3:t%d", t), [][]c04Op{{r(t)}, {ra(t)}, {ra(t)}}})
 		}
 	}
 	// three goroutines
-	for _, t := range []int{0, 1, 3} {
+	for _, t := range []int{0, 1, 3, 13} {
 		out = append(out, c04Scenario{fmt.Sprintf("three-goroutines:t%d", t), [][]c04Op{{r(t)}, {f(t)}, {r(t)}}})
 	}
 	return out
@@ -288,7 +301,7 @@ func c04Solo(nT int, op c04Op) string {
 
 func c04Families(tier string) []explore.Family {
 	scen := c04Scenarios(tier)
-	nT := 13
+	nT := 14
 	bound2, bound3 := 2, 1
 	maxExec := 200000
 	if tier == "thorough" {
